@@ -478,7 +478,7 @@ impl<T, const CAP: usize, const SHIFT: u8, const TAG: u8> InlineVec<T, CAP, SHIF
     pub fn append(&mut self, other: &mut impl traits::MutVector<Item = T>) {
         let len = self.len();
         let other_len = other.len();
-        assert!(len + other_len <= CAP, "new length exceeds capacity");
+        assert!(other_len <= CAP - len, "new length exceeds capacity");
         unsafe {
             self.append_raw(other.as_non_null(), other_len);
             other.set_len(0);
@@ -512,7 +512,7 @@ impl<T, const CAP: usize, const SHIFT: u8, const TAG: u8> InlineVec<T, CAP, SHIF
     ) {
         let len = self.len();
         let other_len = other.len();
-        assert!(len + other_len <= CAP, "new length exceeds capacity");
+        assert!(other_len <= CAP - len, "new length exceeds capacity");
         unsafe {
             self.append_raw(other.as_non_null(), other_len);
             other.set_len(0);
@@ -936,8 +936,8 @@ where
     #[track_caller]
     pub fn extend_from_slice(&mut self, slice: &[T]) {
         let len = self.len();
+        assert!(slice.len() <= CAP - len, "new length exceeds capacity");
         let new_len = len + slice.len();
-        assert!(new_len <= CAP, "new length exceeds capacity");
 
         let dst = self.data[len..new_len].iter_mut();
         let src = slice.iter();
@@ -1096,8 +1096,7 @@ where
     #[track_caller]
     pub const fn extend_from_slice_copy(&mut self, slice: &[T]) {
         let len = self.len();
-        let new_len = len + slice.len();
-        assert!(new_len <= CAP, "new length exceeds capacity");
+        assert!(slice.len() <= CAP - len, "new length exceeds capacity");
         unsafe {
             self.extend_from_slice_copy_unchecked(slice);
         }
